@@ -321,3 +321,10 @@ N('benign.grease-memo-keyed-by-class-and-code', [(P + 'tls/grease.py', _GREASE_O
 B('C15.grease-memo-keyed-by-code-only', ['C15', 'C19'], [(P + 'tls/grease.py', _GREASE_OLD, _GREASE_MEMO % ('code', 'code', 'code'))], mention=['_VALUE_TYPES'])
 B('C10.grease-helper-wrong-mask', ['C10', 'C15'], [(P + 'tls/grease.py', _GREASE_OLD, "            value_type = self._value_type_of(self.code)\n        self.value = self.get_param_class()(self.code, value_type)\n\n    @classmethod\n    def _value_type_of(cls, code):\n        if code & 0x0f == 0x0a and (code >> 8) & 0x0f in (0x0a, 0x00):\n            return TlsInvalidType.GREASE\n        return TlsInvalidType.UNKNOWN\n")], mention=['grease-decision'])
 B('C09.tpkt-version-not-enforced', ['C09'], [(P + 'tls/rdp.py', "        if parser['version'] != 3:", "        if parser['version'] > 3:")], mention=['TPKT version'])
+B('C02.directive-popped-without-membership', ['C02'], [(P + 'common/field.py',
+  "            if attr_to_component_name_dict[name].get_canonical_name() in components:\n                parsable = components.pop(attr_to_component_name_dict[name].get_canonical_name())",
+  "            if True:\n                parsable = components.pop(attr_to_component_name_dict[name].get_canonical_name())")], mention=['KeyError'])
+B('C18.first-directive-only', ['C18'], [(P + 'common/field.py',
+  "                else:\n                    components[attr_to_component_name_dict[name].get_canonical_name()] = components.pop(component)\n                    break\n",
+  "                else:\n                    components[attr_to_component_name_dict[name].get_canonical_name()] = components.pop(component)\n                    break\n                break\n")],
+  mention=['C18.R3'])
